@@ -379,6 +379,18 @@ class Elem:
                     prod = prod * self.indicator(self.expr(a))
                 summed = set("".join(ins.split(","))) - set(out_)
                 return LinearSum(prod) if summed else prod
+            if short in ADAPTER_CALLS and e.args:
+                return self.expr(e.args[0])  # shape/dtype arguments are not values
+            if short in ("divide", "true_divide", "multiply", "add", "subtract") and len(e.args) == 2 and any(k.arg == "where" for k in e.keywords):
+                # ufunc(a, b, out=o, where=c): the result is o where c is false
+                a_, b_ = self.expr(e.args[0]), self.expr(e.args[1])
+                cond = [self.expr(k.value) for k in e.keywords if k.arg == "where"][0]
+                outv = [self.expr(k.value) for k in e.keywords if k.arg == "out"]
+                if not outv:
+                    self.err("ufunc with where= but without out=: the unselected entries are uninitialised", e)
+                if not isinstance(cond, (sp.core.relational.Relational, sp.logic.boolalg.BooleanFunction, sp.logic.boolalg.BooleanAtom)):
+                    self.err(f"where= condition is not a comparison ({cond!r})", e)
+                return sp.Piecewise((BINFUNCS[short](a_, b_), cond), (outv[0], True))
             args = [self.expr(a) for a in e.args]
             if short in UFUNCS and len(args) == 1:
                 return UFUNCS[short](args[0])
